@@ -28,7 +28,6 @@ from harness.props import c02
 ID = 'C31'
 TITLE = 'Actions are marked direct only when the user asked for them'
 PROPS = ['Props/C31']
-DISABLED = True
 
 RULE = ('histories from harness/histgen.py with extra weight on summary tables, formulas and empty columns; the checked '
         'bundles are 1-3 record edits (add/update/remove, also into empty columns, also invalid ones that fail); a bundle '
@@ -477,3 +476,7 @@ def correspond(ctx):
 
 def regenerate(ctx):
   c02.regenerate(ctx)
+  # Props/C31.v does not import the generated file, the correspondence cases do
+  rc, out = core.coq_make(['gen/StoredLog_gen.vo'])
+  if rc != 0:
+    raise core.TieBroken('coq/gen/StoredLog_gen.v does not compile: %s' % out[-1500:])
